@@ -137,8 +137,14 @@ def c08(c):
 FT = dict(module="FieldTrace.tla", cfg="cfg/FieldTrace.cfg")
 
 
+def field_cfgs(mode):
+    idx = open(os.path.join(SPEC, "cfg", "INDEX")).read().split()
+    return [("MC_Field.tla", "cfg/" + n) for n in idx if n.startswith("MC_Field_") and n.endswith("_%s.cfg" % mode)]
+
+
 def c10(c):
     build_both()
+    c.mc(field_cfgs("arith"))
     for b in ("ark", "min"):
         for f in ("Fq", "Fr", "Fp"):
             c.trace(b, "farith_" + f, scale(c.tier, 3000, 120000), **FT)
@@ -148,6 +154,7 @@ def c10(c):
 
 def c11(c):
     build_both()
+    c.mc(field_cfgs("bytes") + field_cfgs("arith"))
     for b in ("ark", "min"):
         for f in ("Fq", "Fr", "Fp"):
             c.trace(b, "fconv_" + f, scale(c.tier, 1500, 60000), **FT)
